@@ -384,8 +384,10 @@ theorem stageF_portHTTP (hP : P.ok) (c : Site) : ((stageF P c).port == P.http) =
   · simp [hp]
 
 /-- a declared site as InspectServerBlocks and the directives leave it: not yet managed, not synthesised, with a
-certmagic manager, and on-demand TLS only comes with a tls directive (which enables TLS) -/
-def Fresh (d : Site) : Prop := d.managed = false ∧ d.hasManager = true ∧ d.redir = none ∧ (d.onDemand = true → d.enabled = true)
+certmagic manager, and on-demand TLS only comes with a tls directive (which enables TLS — unless a later `tls off` switched it
+off again, which leaves the e-mail `off`) -/
+def Fresh (d : Site) : Prop :=
+  d.managed = false ∧ d.hasManager = true ∧ d.redir = none ∧ (d.onDemand = true → d.enabled = true ∨ d.email = unmanagedEmail)
 
 theorem wants_eq (d : Site) : obsWantsRedirect (observeSite P d) = wantsRedirectP P (stageE P d) := by
   unfold obsWantsRedirect observeSite wantsRedirectP
@@ -446,7 +448,7 @@ theorem managed_site_tls (hP : P.ok) (d : Site) (hf : Fresh d) (hm : (markOneP P
   have hq' := hq
   unfold qualifiesP qualifiesForManagedTLSP at hq'
   simp only [Bool.and_eq_true, bne_iff_ne, ne_eq, Bool.not_eq_true'] at hq'
-  obtain ⟨⟨_, ⟨_, ⟨⟨⟨_, _⟩, hport⟩, _⟩, _⟩⟩, hscheme⟩ := hq'
+  obtain ⟨⟨_, ⟨_, ⟨⟨⟨_, _⟩, hport⟩, hemail⟩, _⟩⟩, hscheme⟩ := hq'
   rw [stageF_enabled]
   unfold stageE
   rw [hmark]
@@ -458,7 +460,7 @@ theorem managed_site_tls (hP : P.ok) (d : Site) (hf : Fresh d) (hm : (markOneP P
     · exact fun h => hP.differ h.symm
     · exact hport
   · simp only [ho, Bool.or_true, if_true]
-    have := hod ho
+    have := (hod ho).resolve_right hemail
     simp [this, hport, hscheme]
 
 /-- the port captured by the redirect handler is the port the HTTPS site ends up on (written empty when it is the HTTPS port) -/
